@@ -138,6 +138,7 @@ func TestProp(t *testing.T) {
 	r.Inc("sample_attributes_equal_known")
 	bufs, _, _ := pac.Parse(pac.SampleBytes())
 	patchedAttributeCases(r, bufs)
+	groupCases(r, bufs)
 
 	type variant struct {
 		name string
@@ -392,6 +393,11 @@ func viaTicket(t *testing.T, r *vh.Run, bufs []pac.Buf) {
 		}
 		cases := []tcase{{"good", good, true, known}, {"bad-bit", pac.FlipSignedBit(good, rnd), true, known}, {"bad-sig", flipSig(good), true, known},
 			{"bad-bit-decoding-off", pac.FlipSignedBit(good, rnd), false, known}, {"good-decoding-off", good, false, known}}
+		// PACs that cannot even be parsed: shorter than the header / the buffer table, a buffer count beyond the data
+		hi := append([]byte{}, good...)
+		hi[3] ^= 0x80
+		cases = append(cases, tcase{"unparseable-6-bytes", append([]byte{}, good[:6]...), true, known}, tcase{"unparseable-header-only", append([]byte{}, good[:8]...), true, known},
+			tcase{"unparseable-buffer-count-high-bit", hi, true, known}, tcase{"unparseable-empty", []byte{}, true, known})
 		for pi := 0; pi < 6; pi++ {
 			b2, want := patchedAttributes(bufs, rnd)
 			g2, err := pac.Sign(b2, st, skey, st, kmsg.Key{Type: et, Value: pcommon.RefKey(rnd, et)}, nil)
